@@ -278,6 +278,34 @@ impl Check for C01Check {
             }
             cx.stats.exhaustive_parts.insert(format!("every 2-way byte cut, byte-at-a-time and char-at-a-time feeding of {} pool sequences (+ sentinel text), UTF-8 and 8-bit, with a mode switch at the first cuts", pool.len()));
         }
+        // (b'') extremes of length: parameter lists, digit runs, payloads and text runs far longer
+        // than any real program sends (stack growth per element, caps, counters)
+        if cx.begin_group("long lists, runs and payloads") {
+            let mut k = 0u64;
+            for n in [100usize, 128, 255, 256, 257, 1000, 5000, 70000] {
+                for f in ["m", "H", "r", "h", "l", "J", "K", "g", "A", "P", "@", "L", "X", "d"] {
+                    for val in ["", "0", "1", "38", "9999"] {
+                        k += 1;
+                        if !cx.mine(k) {
+                            continue;
+                        }
+                        let list = vec![val; n].join(";");
+                        for s in [format!("\x1b[{}{}ok", list, f), format!("\x1b[{};1{}ok", list, f), format!("\x1b[?{}{}ok", list, f)] {
+                            c01_case(cx, 6, 3, if k % 2 == 0 { PK::Chars } else { PK::Bytes }, &[Op::Feed(s)], "long-list");
+                        }
+                    }
+                }
+                k += 1;
+                if cx.mine(k) {
+                    let z = "0".repeat(n);
+                    c01_case(cx, 6, 3, PK::Chars, &[Op::Feed(format!("\x1b[{}3g\x1b[{}1;{}2H\x1b]2;{}\x07ok", z, z, z, "t".repeat(n)))], "long-run");
+                    c01_case(cx, 6, 3, PK::Bytes, &[Op::Feed(format!("{}\r\n{}", "w".repeat(n), "\u{65e5}".repeat(n)))], "long-run");
+                    let calls: Vec<Op> = (0..n.min(20000)).map(|_| Op::Api(Call::SaveCursor)).chain((0..n.min(20000) + 1).map(|_| Op::Api(Call::RestoreCursor))).collect();
+                    c01_case(cx, 6, 3, PK::None, &calls, "deep-save");
+                }
+            }
+            cx.stats.exhaustive_parts.insert("parameter lists of 8 lengths (100..70000) x 14 finals x 5 values x 3 shapes; zero padding, OSC payloads, text runs and DECSC nesting of the same lengths".into());
+        }
         // (c) all 2-byte strings
         if cx.begin_group("two-byte strings") {
             for a in 0..=255u32 {
